@@ -62,7 +62,7 @@ class C01(Property):
         classify_orderings(spec, out)
         for f in rep.pull_failures:
             if f["exc"] in ("FinamTimeError", "FinamNoDataError"):
-                out.viol("pull_failed_in_update", f"{f['comp']}.{f['input']} pull at {f['t']}h failed during its update: {f['exc']}: {f['msg']}", spec=spec, witness=f)
+                out.viol("pull_failed_in_update", f"{f['comp']}.{f['input']} pull at {f['t']}h failed during its update: {f['exc']}: {f['msg']}", spec=spec, witness=f, where=f.get("where"))
         for lk in rep.lacking_at_update:
             out.viol("updated_before_data_exists", f"update of {lk['comp']} (announced pull {lk['next']}h) while sources lag: {lk['lacking']}; component times {lk['times']}", spec=spec, witness=lk)
         for lk in rep.lacking_by_push_log:
